@@ -154,6 +154,7 @@ Inductive G :=
 | Pratt (atom : G) (ops : list pop) (* atom.pratt(ops): operators are tried in list order *)
 | GroupArr (gs : list G)            (* group([..; N]): the array form (MaybeUninit storage, see Model/Ledger.v) *)
 | NestedIn (a : G)                  (* a.nested_in(select_ref! { Group(children) => children as input }) *)
+| Skip (n : nat)                    (* custom(|inp| { for _ in 0..n { inp.skip() } Ok(()) }): InputRef::skip, n times *)
 | ExtWrap (a : G)                   (* Ext(P) with ExtParser::parse = inp.parse(&a) and a separate ExtParser::check = inp.check(&a) *)
 with pop :=
 | PInfix (rassoc : bool) (bp : nat) (og : G) (k : nat)
@@ -185,8 +186,11 @@ Definition pfold_prefix (k : nat) (op r : val) (sp : span) : val := VTag k (VLis
 Definition pfold_postfix (k : nat) (l op : val) (sp : span) : val := VTag k (VList [l; op; VSpan (fst sp) (snd sp)]).
 
 (* the bounds in force after configuration: what the closure set overrides the static bound *)
-Definition cfg_lo (ck lo n : nat) : nat := match ck with 0 | 1 => n | _ => lo end.
-Definition cfg_hi (ck : nat) (hi : option nat) (n : nat) : option nat := match ck with 0 | 2 => Some n | _ => hi end.
+(* ck: 0 exactly(n), 1 at_least(n), 2 at_most(n), 3 nothing set, through configure; 4..7 the same through try_configure
+   (closure returns Ok); 8: try_configure whose closure returns Err(custom lo) when the context holds no token, Ok(exactly(n)) otherwise *)
+Definition cfg_lo (ck lo n : nat) : nat := match ck with 0 | 1 | 4 | 5 | 8 => n | _ => lo end.
+Definition cfg_hi (ck : nat) (hi : option nat) (n : nat) : option nat := match ck with 0 | 2 | 4 | 6 | 8 => Some n | _ => hi end.
+Definition cfg_fails (ck n : nat) : bool := andb (Nat.eqb ck 8) (Nat.eqb n 0).
 
 (* derived forms, as in Rust *)
 Definition Lazy (a : G) : G := ThenIgnore a (RepUnit (IRep Any 0 None)).
